@@ -595,9 +595,13 @@ def gen_stopcount(rng):
         for r in sc["route"]:
             if r["kind"] == "tm":
                 r["P"] = [[min(v, 1) for v in row] for row in r["P"]]
-        sc["patS"] = [[[] for _ in range(K)] for _ in range(sc["N"])]
+    if rng.random() < 0.4 and sc["N"] == 1:
+        nd = sc["nodes"][0]
+        if nd["c"] < INF and nd["c"] > 0:
+            sc["patS"] = [[samples(rng, 0, 3, 2)] + [[] for _ in range(K - 1)]]
+    if rng.random() < 0.4:
         for nd in sc["nodes"]:
-            nd["bk"] = []
+            nd["bk"] = [[rng.choice([0, 0, 1, 2]) for _ in range(rng.randint(1, 3))] for _ in range(K)]
     return sc
 
 
